@@ -43,7 +43,7 @@ var (
 		"ReadFile": true, "WriteFile": true, "Stat": true, "Lstat": true, "Open": true, "OpenFile": true,
 		"Create": true, "CreateTemp": true, "Rename": true, "Remove": true, "RemoveAll": true, "Mkdir": true,
 		"MkdirAll": true, "MkdirTemp": true, "ReadDir": true, "Chmod": true, "Truncate": true, "Link": true,
-		"Symlink": true, "Readlink": true, "Getwd": true, "Chdir": true, "UserHomeDir": true, "UserConfigDir": true,
+		"Symlink": true, "Readlink": true, "OpenRoot": true, "Root": true, "Getwd": true, "Chdir": true, "UserHomeDir": true, "UserConfigDir": true,
 		"UserCacheDir": true, "Getenv": true, "LookupEnv": true, "Setenv": true, "Unsetenv": true,
 		"Environ": true, "Executable": true, "Exit": true, "Stdin": true, "TempDir": true, "File": true,
 		"Hostname": true, "Getuid": true, "Geteuid": true, "Getpid": true, "Getppid": true, "ExpandEnv": true, "SameFile": true,
